@@ -198,8 +198,10 @@ def parallel_path(args):
         alg.options['max_processes'] = 2
         ind = Individual(ec.sym_vector(ctx, 'd', prob))
         raised = None
+        import contextlib, io
         try:
-            alg.evaluate([ind])
+            with contextlib.redirect_stdout(io.StringIO()), contextlib.redirect_stderr(io.StringIO()):   # joblib's progress lines
+                alg.evaluate([ind])
         except ec.OtherError as e:
             raised = 'other'
         except RuntimeError as e:
